@@ -21,6 +21,7 @@ UNITS = {
     "u21_patchlog_tx": {"verus": "specs/u21_patchlog_tx.vt.rs"},
     "u22_loadnext": {"verus": "specs/u22_loadnext.vt.rs"},
     "u23_exid_order": {"verus": "specs/u23_exid_order.vt.rs"},
+    "u24_changeparse": {"verus": "specs/u24_changeparse.vt.rs"},
 }
 CHUNK = "rust/automerge/src/storage/chunk.rs"
 EXID = "rust/automerge/src/exid.rs"
@@ -180,18 +181,21 @@ PROPERTIES.update({
     },
     "C10": {
         "level": "proof",
-        "verus": [("u03_chunk", "*")],
+        "verus": [("u03_chunk", "*"), ("u24_changeparse", ["parse_following_header", "actor_id", "lemma_contk"])],
         "kani": ["u03_leb128_writer_matches_parser", "u03_header_parse_q", "u03_header_parse_t", "u03_header_roundtrip_0", "u03_header_roundtrip_3", "u03_checksum_valid"],
         "not_under_contract": ["ChangeCollector (rebuilding changes from columns)", "get_changes ordering", "Change::raw_bytes bookkeeping", "sha2::Sha256 (uninterpreted)"],
         "trusted": ["sha2::Sha256 as an uninterpreted function of the bytes fed to it", "leb128 crate writer contract (backed by K harness u03_leb128_writer_matches_parser for all u64)"],
-        "explanation": "Verus proves on the real text of storage::chunk::hash that the hash is SHA-256 over type byte ++ LEB128(len) ++ data (every byte in the preimage); Kani shows the header is "
+        "explanation": "U24: the real Change::parse_following_header reads every scalar field of a change chunk (dependencies, actor, seq, start op, SIGNED timestamp, message) with the decoder of its type at the offset "
+                       "the preceding fields leave, keeps the header it is given and the whole input as the chunk bytes -- the fields a Change reports are functions of the hashed bytes. "
+                       "Verus proves on the real text of storage::chunk::hash that the hash is SHA-256 over type byte ++ LEB128(len) ++ data (every byte in the preimage); Kani shows the header is "
                        "canonical (re-encoding a parsed header reproduces the wire bytes), so the hashed length is the wire length. The rest of C10 (change reconstruction, get_changes order) is not under contract.",
     },
     "C13": {
         "level": "proof",
         "verus": [("u02_parse", ["take_1", "take_n", "take_4", "take1", "take4", "rest", "take_rest", "leb128_u64", "leb128_u32", "new", "lift", "split", "truncate", "skip", "reset", "is_empty"]),
                   ("u13_load", ["load_changes", "reset", "is_empty"]),
-                  ("u14_loadopts", ["load_with_options_and_mark_validation"]), ("u20_chunkparse", ["parse", "data_bytes", "bytes"]), ("u22_loadnext", "*")],
+                  ("u14_loadopts", ["load_with_options_and_mark_validation"]), ("u20_chunkparse", ["parse", "data_bytes", "bytes"]), ("u22_loadnext", "*"),
+                  ("u24_changeparse", ["parse_following_header", "actor_id", "lemma_contk"])],
         "kani": ["u03_header_parse_q", "u03_header_parse_t", "u03_header_parse_long"],
         "not_under_contract": ["one exit of load_next_change (document chunk that fails to reconstruct: this Verus loses a `&mut` parameter at a `return` inside a match with a guarded arm)", "chunk bodies (Document::parse, Change::parse_following_header, BundleStorage::parse_following_header: assumed stubs), Document::reconstruct, Change::new_from_unverified (assumed stubs)",
                                "Automerge::apply_changes (assumed: appends the given changes)"],
